@@ -128,7 +128,7 @@ Proof.
   - (* FRUnlockMiss *) injection Hs as <-. rframe HI t Hpc.
   - (* CrB *) injection Hs as <-. rframe HI t Hpc.
   - (* CrE *) destruct (gate_open (open s) (t_gate (ts s t))); [|discriminate].
-    destruct (Nat.eqb (t_fail (ts s t)) 0); injection Hs as <-.
+    destruct (Nat.eqb (t_fail (ts s t)) 0 || Nat.eqb (t_fail (ts s t)) 3); injection Hs as <-.
     + pose proof HI as [M M' O F St Dn].
       assert (Hmine : alookup Nat.eqb (t_key (ts s t)) (calls s) = Some c) by (apply M'; rewrite Hpc; reflexivity).
       constructor; cbn [calls wg cval cerr next resources closed readers writer nextid open ts trace cre ncre closedids].
@@ -219,18 +219,50 @@ Proof.
   - pose proof (r_free _ HI Hc k Hk) as S1. unfold cons in S1. destruct (alookup Nat.eqb k (resources s)); lia.
 Qed.
 
-(* Close closes every stored resource and empties the table *)
+(* Close closes every stored resource exactly once -- whether or not its Close() returns an error
+   (close_fails is arbitrary per resource) -- empties the table, and reports an error iff some
+   resource failed *)
 Lemma rm_close_all s t :
   t_pc (ts s t) = CClose ->
   exists s', step (Thr t) s = Some s' /\ resources s' = [] /\ closed s' = true /\
-             (forall k id, alookup Nat.eqb k (resources s) = Some id -> In id (closedids s')) /\
-             (forall id, In id (map snd (resources s)) -> In (mkev t KEnd 1 id 0 0) (trace s')).
+             closedids s' = map snd (resources s) ++ closedids s /\
+             trace s' = rev (close_events t (resources s)) ++ trace s /\
+             map e_a (close_events t (resources s)) = map snd (resources s) /\
+             t_pc (ts s' t) = CUnlock /\ t_re (ts s' t) = close_err (resources s) /\
+             (forall kv, In kv (resources s) ->
+                In (mkev t KEnd 1 (snd kv) 0 (if close_fails (snd kv) then 1 else 0)) (trace s')).
 Proof.
-  intro Hpc. unfold step. rewrite Hpc. eexists. split; [reflexivity|]. simpl. repeat split; auto.
-  - intros k id Hk. apply in_or_app. left. clear Hpc. induction (resources s) as [|[k' v] r IH]; simpl in *; [discriminate|].
-    destruct (Nat.eqb k k'); [injection Hk as <-; auto|auto].
-  - intros id Hin. apply in_or_app. left. apply in_rev. rewrite rev_involutive. 
-    apply in_map_iff in Hin as (kv & <- & Hin). apply in_map_iff. exists kv. auto.
+  intro Hpc. unfold step. rewrite Hpc. eexists. split; [reflexivity|].
+  cbn [resources closed closedids trace ts]. rewrite upd_same. cbn [setpcr t_pc t_re]. repeat split; auto.
+  - unfold close_events. rewrite map_map. reflexivity.
+  - intros kv Hin. apply in_or_app. left. apply in_rev. rewrite rev_involutive.
+    unfold close_events. apply in_map_iff. exists kv. auto.
+Qed.
+
+(* Close then returns what it collected *)
+Lemma rm_close_result s t :
+  t_pc (ts s t) = CUnlock ->
+  exists s', step (Thr t) s = Some s' /\ t_res (ts s' t) = (t_re (ts s t), 0) :: t_res (ts s t) /\ writer s' = None.
+Proof.
+  intro Hpc. unfold step. rewrite Hpc. eexists. split; [reflexivity|]. cbn [ts writer]. rewrite upd_same. auto.
+Qed.
+
+(* the order in which the map is traversed does not matter *)
+From Coq Require Import Sorting.Permutation.
+Lemma rm_close_order t rs rs' : Permutation rs rs' ->
+  Permutation (close_events t rs) (close_events t rs') /\ close_err rs = close_err rs' /\
+  Permutation (map snd rs) (map snd rs').
+Proof.
+  intro H. repeat split.
+  - unfold close_events. apply Permutation_map. assumption.
+  - unfold close_err.
+    assert (E : existsb (fun kv : nat * nat => close_fails (snd kv)) rs = existsb (fun kv => close_fails (snd kv)) rs').
+    { induction H; simpl; auto.
+      - rewrite IHPermutation. reflexivity.
+      - destruct (close_fails (snd x)), (close_fails (snd y)); reflexivity.
+      - congruence. }
+    rewrite E. reflexivity.
+  - apply Permutation_map. assumption.
 Qed.
 
 (* a create() that fails or panics winds the flight up like a successful one: once the call that
